@@ -27,6 +27,7 @@ from mc.core import Acc, Violation, worker_scratch, exc_signature
 from mc.viocap import report
 
 PROPERTY = "C06"
+SIZE_MODULES = ['mokapot.peps', 'mokapot.qvalues', 'mokapot.confidence']  # see mc.runner._sized_passes
 LEVEL = "exploration"
 RULE = (
     "case = (score set: pi0, separation, #targets, #decoys, rounding; algorithm; input order) - every combination of "
